@@ -9,7 +9,7 @@ import progen
 THEOREMS = ["Flat.node_bound", "Flat.node_bound_nt", "Flat.table_checked", "Flat.pinned_capacity_too_small",
             "Flat.cursor_bound", "Flat.cursor_checked", "Flat.runProg_sound", "Flat.runNT_sound", "Flat.runProg_cursor",
             "Flat.runNT_cursor", "Flat.parse_total", "Flat.nt_total", "Flat.term_checked", "Flat.walk_sound",
-            "Flat.runNT_total"]
+            "Flat.runNT_total", "Flat.node_ids_fit"]
 
 CODE = {"unexpectedToken": 300, "semicolonAfterIdentifier": 301, "missingConstantType": 343,
         "missingParameterType": 344, "missingMemberType": 346, "maxDepth": 390}
@@ -110,6 +110,70 @@ def dense_inputs(rng, big):
         out.append(("nest-type-%d" % d, "fn f(x: " + "[]&" * d + "i32)\n{\n}\n"))
         out.append(("nest-index-%d" % d, "fn f()\n{\n\tx = " + "a[" * d + "1" + "]" * d + ";\n}\n"))
     return out
+
+
+LEAN_MAX_NUM_TOKENS = 2 ** 22 - 2      # Flat.maxNumTokens (lean/PenneModel/Props/C15.lean)
+LEAN_MAX_NUM_NODES = 2 ** 24           # Flat.maxNumNodes
+
+
+def rust_const(path, name):
+    """the value of `const NAME: usize = <expression>;` (integers, << + - * and parentheses)"""
+    text = open(os.path.join(REPO, path)).read()
+    m = re.search(r"const\s+%s\s*:\s*usize\s*=\s*([^;]+);" % name, text)
+    if not m or not re.fullmatch(r"[\d\s()<+*-]+", m.group(1)):
+        return None
+    return int(eval(m.group(1), {"__builtins__": {}}))
+
+
+def node_number_limits(rep):
+    """the 24-bit node numbers: the theorem `Flat.node_ids_fit` is about the constants of the source (read here), and
+    modules around the limit are lexed and parsed for real (built inside the harness: 11 to 17 MB)"""
+    t = rust_const("src/delta/lexer/tokens.rs", "MAX_NUM_TOKENS")
+    n = rust_const("src/delta/parser/parse_node.rs", "MAX_NUM_NODES")
+    plain = esc(b"x = a + a     ;\n")
+    chain = esc(b"x = a" + b"  + a" * 999 + b";\n")
+    # (functions, statements, statement, what is expected)
+    probes = [(698, 1000, plain, "accept"), (699, 1000, plain, None), (820, 1000, plain, None),
+              (2080, 1, chain, "accept"), (2088, 1, chain, "accept"), (2089, 1, chain, None), (2400, 1, chain, None)]
+    answers = run_harness_serial(["dbig\t%d\t%d\t%s" % (f, k, st) for (f, k, st, _e) in probes])
+    seen = []
+    for (f, k, st, expect), a in zip(probes, answers):
+        head, d = kv(a)
+        seen.append("%dx%d:%s" % (f, k, a[:90]))
+        why = []
+        if head in ("panic", "crash"):
+            why.append("the front end does not survive a module of this size: " + a[:200])
+        elif head == "ok":
+            if int(d["nodes"]) > LEAN_MAX_NUM_NODES:
+                why.append("%s nodes cannot be told apart by 24-bit node numbers" % d["nodes"])
+            if expect == "accept" and d.get("codes"):
+                why.append("a well-formed module under the limits is not accepted: " + a[:120])
+        elif head == "lexerr":
+            if d.get("codes") != "103":
+                why.append("exceeding the token limit is reported as %s, not E103" % d.get("codes"))
+            if expect == "accept":
+                why.append("a well-formed module under the limits is not accepted: " + a[:120])
+        else:
+            why.append("unexpected answer " + a[:120])
+        if why:
+            rep.violation("node-numbers:%dx%d:%s" % (f, k, "plain" if st == plain else "chain"), {
+                "why": why, "harness_request": "dbig\t%d\t%d\t%s" % (f, k, unesc_preview(st)),
+                "source": "%d functions `fn f()\\n{\\n ... }\\n` of %d statements `%s` each" % (f, k, unesc_preview(st)),
+                "implementation": a[:300], "theorem": "Flat.node_ids_fit"})
+    if t != LEAN_MAX_NUM_TOKENS or n != LEAN_MAX_NUM_NODES:
+        if t is not None and n is not None and 4 * t + 6 <= n:
+            pass        # other constants under which the theorem's arithmetic still holds
+        elif not any(k.startswith('node-numbers:') for (k, _p, _n) in rep.violations):
+            rep.violation("node-numbers:constants", {
+                "why": ["MAX_NUM_TOKENS = %s and MAX_NUM_NODES = %s in the source; Flat.node_ids_fit is about %d and %d, and "
+                        "4 * tokens + 6 <= nodes does not hold for the source's constants" % (t, n, LEAN_MAX_NUM_TOKENS,
+                                                                                              LEAN_MAX_NUM_NODES)],
+                "theorem": "Flat.node_ids_fit"}, no_input=True)
+    return {"MAX_NUM_TOKENS": t, "MAX_NUM_NODES": n, "probes": seen}
+
+
+def unesc_preview(st):
+    return st if len(st) <= 60 else st[:40] + "..." + st[-12:]
 
 
 def main():
@@ -300,7 +364,9 @@ def main():
                 "harness_request": ("dparse\t" + esc(b))[:20000],
                 "model_request": ("dparse\t" + d.get("kinds", ""))[:20000] if head == "ok" else None,
                 "implementation": a[:400], "implementation_front": a2[:400], "model": mof.get(i, "")[:400]})
+    limits = node_number_limits(rep)
     report_broken_proof(rep)
+    rep.coverage.update({"node_number_limits": limits})
     rep.coverage.update({
         "evaluations": len(all_inputs), "distinct_nontrivial": len(set(b for (_c, b, _e) in all_inputs)),
         "rule": "every input goes through lex -> parse -> errors()/build_header()/as_xml() in an isolated worker (panic and "
